@@ -9,7 +9,7 @@ arrival order, empty calls, one-sample calls, everything at once).  Section 4 re
 `Throughput.calculate` / `runAll` (several tasks, the `task_stats` dictionary) to it.
 
 `current = true` is the code as it is (with /repo commit d4fc0e7, which resets `current.unprocessed`
-before the carried-over samples are looped over again).  Section 5 lifts everything to the post-processor / driver buffer that own the calculator; section 6 keeps one historical witness about the
+before the carried-over samples are looped over again).  Section 5 lifts everything to the post-processor / driver buffer that own the calculator; section 6 covers the path from the runner's result to the sample; section 7 keeps one historical witness about the
 code before that commit.
 
 Floats: `Dbl.fsub` / `Dbl.fdiv` / `Dbl.ofNat` are the IEEE-754 double operations (`a - b`,
@@ -262,7 +262,62 @@ example : (driverRun [] [] [.update [(7, wS (201/2) (1/2)), (3, wS 200 1)], .pos
     (driverRun [] [] [.update [(7, wS (201/2) (1/2))], .postProcess, .update [(7, wS 102 2)]]).1.1.length = 1 := by
   decide +kernel
 
-/-! ## 6. historical witness: the code before /repo commit d4fc0e7 (`fix = false`) -/
+/-! ## 6. before the calculator: the runner's result reaches the sample unchanged
+
+`RResult` / `resultOps` / `sampleOf` model `execute_single`, `request_meta_data.pop("throughput", None)` in
+`AsyncExecutor.__call__` and `Sampler.add`, as far as the throughput calculation is concerned. -/
+
+/-- whatever number the runner puts under `"throughput"` — 0 included — is the sample's throughput; weight and unit
+    are the runner's (defaults 1 and "ops") -/
+theorem supplied_throughput_reaches_sample (tm : Timing) (w : Option Nat) (u : Option (List Char)) (v : Rat) :
+    (sampleOf tm (.dict w u (some (some v)))).tput = some v ∧
+    (sampleOf tm (.dict w u (some (some v)))).ops = w.getD 1 ∧
+    (sampleOf tm (.dict w u (some (some v)))).unit = u.getD ['o', 'p', 's'] :=
+  ⟨rfl, rfl, rfl⟩
+
+/-- no entry, an entry `None`, a tuple, any other return value and a failed request all mean "calculate" -/
+theorem no_supplied_throughput (tm : Timing) (w : Option Nat) (u : Option (List Char)) (n : Nat) (un : List Char) :
+    (sampleOf tm (.dict w u none)).tput = none ∧ (sampleOf tm (.dict w u (some none))).tput = none ∧
+    (sampleOf tm (.pair n un)).tput = none ∧ (sampleOf tm .other).tput = none ∧ (sampleOf tm .failed).tput = none :=
+  ⟨rfl, rfl, rfl, rfl, rfl⟩
+
+/-- **Pass-through end to end.** A task whose runner supplies a throughput with every call (any numbers, zero, negative,
+    tiny, huge): whatever the cutting into batches, no state is kept, call `k` returns one tuple per sample of the call in
+    stable time order carrying the sample's times, type, `<unit>/s`, and as value exactly what the runner supplied for
+    that call (`supplied`), each supplied value once. -/
+theorem supplied_throughput_end_to_end (bi : Nat) (batches : List (List (Timing × RResult)))
+    (hs : ∀ b ∈ batches, ∀ x ∈ b, supplied x.2 ≠ none) :
+    (run current bi none (batches.map (List.map (fun x => sampleOf x.1 x.2)))).1 = none ∧
+    (run current bi none (batches.map (List.map (fun x => sampleOf x.1 x.2)))).2 =
+      batches.map (fun b => (sortByAbs (b.map (fun x => sampleOf x.1 x.2))).map (fun s =>
+        { abs := s.abs, rel := s.rel, normal := s.normal, value := s.tput, unit := s.unit ++ ['/', 's'] })) ∧
+    ∀ b ∈ batches, ((sortByAbs (b.map (fun x => sampleOf x.1 x.2))).map (·.tput)).Perm (b.map (fun x => supplied x.2)) := by
+  have hsup : Supplied (batches.map (List.map (fun x => sampleOf x.1 x.2))) := by
+    intro b hb s hs'
+    obtain ⟨b0, hb0, rfl⟩ := List.mem_map.mp hb
+    obtain ⟨x, hx, rfl⟩ := List.mem_map.mp hs'
+    exact hs b0 hb0 x hx
+  obtain ⟨h1, h2, _⟩ := passthrough bi _ hsup
+  refine ⟨h1, ?_, ?_⟩
+  · rw [h2, List.map_map]; rfl
+  · intro b _
+    have := (sortByAbs_perm (b.map (fun x => sampleOf x.1 x.2))).map (·.tput)
+    simpa [List.map_map, Function.comp_def, sampleOf] using this
+
+/-- non-vacuity: a polling runner that is idle between some polls reports 0, 250, 0; the store gets exactly 0, 250, 0 —
+    in one batch and in two; a batch that *starts* with an idle poll is still passed through -/
+example :
+    (run current 1 none [[({ abs := 101, rel := 1, period := 1, normal := true }, RResult.dict (some 100) none (some (some 0))),
+        ({ abs := 102, rel := 2, period := 2, normal := true }, RResult.dict (some 100) none (some (some 250))),
+        ({ abs := 103, rel := 3, period := 3, normal := true }, RResult.dict (some 100) none (some (some 0)))].map
+          (fun x => sampleOf x.1 x.2)]).2.map (fun l => l.map (fun o => (o.value, o.unit))) =
+      [[(some 0, ['o', 'p', 's', '/', 's']), (some 250, ['o', 'p', 's', '/', 's']), (some 0, ['o', 'p', 's', '/', 's'])]] ∧
+    (run current 1 none [[sampleOf { abs := 101, rel := 1, period := 1, normal := true } (.dict (some 100) none (some (some 0)))],
+        [sampleOf { abs := 102, rel := 2, period := 2, normal := true } (.dict (some 100) none (some (some 250)))]]).2.map
+          (fun l => l.map (·.value)) = [[some 0], [some 250]] := by
+  decide +kernel
+
+/-! ## 7. historical witness: the code before /repo commit d4fc0e7 (`fix = false`) -/
 
 /-- HISTORICAL (not about the current code).  Before commit d4fc0e7 conservation was false: on `witness` the
     sample of the second call was carried into the third call, which completed no bucket and appended it to
